@@ -39,7 +39,8 @@ class Channel(BaseChannel):
     """
     __slots__ = [
         '_consumer_callbacks', 'rpc', '_basic', '_confirming_deliveries',
-        '_connection', '_exchange', '_inbound', '_queue', '_tx'
+        '_connection', '_exchange', '_inbound', '_queue', '_tx',
+        '_returned_content_left'
     ]
 
     def __init__(self, channel_id, connection, rpc_timeout):
@@ -50,6 +51,7 @@ class Channel(BaseChannel):
         self._confirming_deliveries = False
         self._connection = connection
         self._inbound = collections.deque()
+        self._returned_content_left = None
         self._basic = Basic(self, connection.max_frame_size)
         self._exchange = Exchange(self)
         self._tx = Tx(self)
@@ -273,6 +275,10 @@ class Channel(BaseChannel):
         :param pamqp.Frame frame_in: Amqp frame.
         :return:
         """
+        if self._returned_content_left is not None:
+            if self._skip_returned_content(frame_in):
+                return
+
         if self.rpc.on_frame(frame_in):
             return
 
@@ -302,6 +308,7 @@ class Channel(BaseChannel):
         :return:
         """
         self._inbound.clear()
+        self._returned_content_left = None
         self._exceptions = []
         self._confirming_deliveries = False
         self.set_state(self.OPENING)
@@ -446,6 +453,27 @@ class Channel(BaseChannel):
         exception = AMQPMessageError(message,
                                      reply_code=frame_in.reply_code)
         self.exceptions.append(exception)
+        self._returned_content_left = -1
+
+    def _skip_returned_content(self, frame_in):
+        """Consume the content frames that follow a Basic.Return.
+
+            The header and body of a returned message are neither a
+            delivery nor the reply to a pending request.
+
+        :param frame_in: Amqp frame.
+        :rtype: bool
+        """
+        left = self._returned_content_left
+        if frame_in.name == 'ContentHeader' and left == -1:
+            self._returned_content_left = frame_in.body_size or None
+            return True
+        if frame_in.name == 'ContentBody' and left > 0:
+            left -= len(frame_in.value)
+            self._returned_content_left = left if left > 0 else None
+            return True
+        self._returned_content_left = None
+        return False
 
     def _build_message(self, auto_decode, message_impl):
         """Fetch and build a complete Message from the inbound queue.
